@@ -228,6 +228,11 @@ pub fn source_for(case: &Case) -> (String, Vec<(String, u16)>) {
     let mut src = String::new();
     let mut labels: Vec<(String, u16)> = Vec::new();
     if uses_label {
+        // the label's definition may follow a SET (its offset is counted from there; where DS points at run time is the
+        // machine state's business)
+        if case.choices.len() > 3 && case.choices[3] & 1 == 1 {
+            src.push_str(&format!("set {}\n", [1u16, 0x0102, 0x000F, 0xFFFF, 0x2001, 0x0010][(case.choices[3] >> 1) as usize % 6]));
+        }
         if case.label_off > 0 {
             src.push_str(&format!("db [{}]\n", case.label_off));
         }
